@@ -44,6 +44,17 @@ CLAIMED = {
              "DESIGN F22) and is not claimed.",
         technique="Coq proof (safety lemmas per parser composed by induction; termination measure) + model/implementation correspondence on systematic malformations",
         ref="DESIGN.md section 6, C01"),
+    "C10": dict(
+        text="Kernel-checked theorems: the layout the transliterated code uses for each of the 40 types equals an RFC layout "
+             "table written separately from the RFCs (and the codes equal the IANA table); for every type and every well-formed "
+             "field-value tuple, parsing the declarative RFC encoding (big-endian fields, length-prefixed strings, uncompressed "
+             "names, trailing data) returns exactly those values and stops at its end, len() equals the bytes written, and "
+             "accepted RDATA satisfies the structural rules (LOC version 0, SVCB keys / NSEC windows strictly increasing, inner "
+             "lengths inside the RDATA) - one induction over layouts covers all types. Tied to /repo by parsing reference-encoded "
+             "records (independent python schema), serialising the same values, the repository's zonefile sample vectors and "
+             "rule-breaking encodings. Known findings F25 (ISDN sa) and F30 (NSAP) are reported as KNOWN-FINDING.",
+        technique="Coq proof (generic layout induction + table equality) + model/implementation correspondence against an independent reference encoder",
+        ref="DESIGN.md section 6, C10"),
 }
 
 PENDING_REASON = "not claimed yet: model, theorems and correspondence slice for this property are still being built (see DESIGN.md section 10)"
